@@ -24,7 +24,7 @@ MCNext ==
         \/ OpStep(Add(t, s, k, v, ok)) \/ OpStep(AddIfNotExist(t, s, k, v, ok))
         \/ OpStep(Update(t, s, k, v, ok)) \/ OpStep(Upsert(t, s, k, v, ok))
         \/ OpStep(Remove(t, s, k, ok))
-  \/ \E t \in Txns : Step(FailedCall(t))
+  \/ \E t \in Txns : Step(FailedCall(t)) \/ Step(Crash(t))
   \/ \E t \in Txns : Step(CommitStart(t)) \/ Step(Lin(t)) \/ Step(Rollback(t))
   \/ \E t \in Txns, ok \in BOOLEAN : Step(CommitEnd(t, ok))
   \/ \E s \in Stores : Step(RemoveStore(s))
